@@ -852,3 +852,366 @@ theorem Fr.handleApi (rid : RunId) : Fr (handleApi rid) := by
     | some r => exact Fr.bind (Fr.modifySys (fun _ => rfl)) (fun _ => Fr.pure _)
 
 end WorkflowModel.Engine
+
+/-! ## what a completed delivery to a step consumer means (C01, C04)
+
+On a normal return of the step consumer's handler - the only way the event gets acknowledged - the announced version is no
+longer a live head of the run: the record had moved on (old announcement), the run is stopped, or this very operation
+persisted a write (the step's effect, or the pause/cancel it asked for, or the auto-pause). Needs user functions that do
+not answer with a skip value (`NoSkip`: a skip consumes the event by design). -/
+namespace WorkflowModel.Engine
+open WorkflowModel RS
+variable {cfg : Cfg} {env : Env}
+
+def Live (w : Rec) : Prop := w.runState = 1 ∨ w.runState = 2
+
+/-- the announcement `(rid, v)` needs no further handling -/
+def Done (rid : RunId) (v : Int) (R : List RunS) : Prop := ∀ w, curR R rid = some w → Live w → w.version ≠ v
+
+/-- no user function of the operation answers with a skip value -/
+def NoSkip (env : Env) : Prop := ∀ o ∈ env.outcomes, ∀ next n, o = Outcome.ret next n → Gen.skipValues.contains next = false
+
+theorem curR_writeRuns {R : List RunS} {w : Rec} (hle : w.runId ≤ R.length) : curR (writeRuns R w) w.runId = some w := by
+  unfold curR
+  rw [writeRuns_get _ _ _ hle, if_pos rfl]
+  cases hR : R[w.runId]? with
+  | some x => simp
+  | none =>
+    have : w.runId = R.length := by
+      have := List.getElem?_eq_none_iff.mp hR
+      exact Nat.le_antisymm hle this
+    simp [this]
+
+theorem legal_le {R : List RunS} {w : Rec} (hl : Legal cfg R w) : w.runId ≤ R.length := by
+  obtain ⟨_, hl⟩ := hl
+  cases hR : R[w.runId]? with
+  | none => rw [hR] at hl; exact Nat.le_of_eq hl.1
+  | some x0 => exact Nat.le_of_lt (List.getElem?_eq_some_iff.mp hR).1
+
+/-- a `Store` that returns normally has made its record the persisted one (up to the store's own time stamp) -/
+theorem HT.store_head (w : Rec) :
+    HT cfg env (fun R => Legal cfg R w ∧ LegalNew R w) (Engine.store cfg w)
+      (fun _ R => ∃ h, curR R w.runId = some h ∧ h.version = w.version ∧ h.runState = w.runState ∧ h.status = w.status) := by
+  intro st hi hz hp
+  obtain ⟨h1, h2, _⟩ := HT.store (cfg := cfg) (env := env) w st hi hz hp
+  refine ⟨h1, h2, fun a ha => ?_⟩
+  rcases hs : Engine.store cfg w env st with ⟨r, st'⟩
+  rw [hs] at ha
+  simp only at ha
+  subst ha
+  unfold Engine.store at hs
+  have hok := call_ok hs
+  simp only at hok
+  rw [hok.2.1, write_runs']
+  have hle := legal_le hp.1
+  split
+  · exact ⟨_, curR_writeRuns (w := { w with updatedAt := st.sys.now }) hle, rfl, rfl, rfl⟩
+  · exact ⟨_, curR_writeRuns hle, rfl, rfl, rfl⟩
+
+/-- `ctlUpdateMem` that succeeds leaves the run persisted in the target state -/
+theorem ctlUpdateMem_done (mem : Rec) (op : CtlOp) :
+    HT cfg env (fun R => allowed mem.runState (target op) = true → Based R mem) (ctlUpdateMem cfg mem op)
+      (fun r R => r.1.runId = mem.runId ∧ (r.2 = none → ∃ h, curR R mem.runId = some h ∧ h.runState = target op)) := by
+  unfold ctlUpdateMem
+  dsimp only
+  split
+  · rename_i ha
+    refine HT.bind (HT.pre ?_ (HT.tryM (HT.store_head _))) (fun r => ?_)
+    · intro s hi hb
+      refine ⟨legal_ctl hi (hb ha) (target op) (ctlReason op) (target_cases op) ha, ?_⟩
+      obtain ⟨h, ⟨x, t, hx, _⟩, hid, _⟩ := hb ha
+      exact legalNew_existing (x := x) (by rw [← hid] at *; exact hx)
+    · cases r with
+      | ok u =>
+        refine HT.pure (fun R hp => ⟨rfl, fun _ => ?_⟩)
+        obtain ⟨h, h1, _, h3, _⟩ := hp u rfl
+        exact ⟨h, h1, h3⟩
+      | error a => exact HT.pure (fun _ _ => ⟨rfl, fun h => by cases h⟩)
+  · exact HT.pure (fun R _ => ⟨rfl, fun h => by cases h⟩)
+
+end WorkflowModel.Engine
+
+namespace WorkflowModel.Engine
+open WorkflowModel RS
+variable {cfg : Cfg} {env : Env}
+
+theorem not_live_of_target_pause_cancel {rs : Int} (h : rs = target .pause ∨ rs = target .cancel) : ¬ (rs = 1 ∨ rs = 2) := by
+  rcases h with h | h <;> rw [h] <;> decide
+
+/-- user functions: a normal return with a skip value comes from a successful Pause/Cancel (no `ret` outcome is a skip value) -/
+theorem runFn_done (hn : NoNested env) (hs : NoSkip env) (kind : String) (run mem : Rec) (fuel : Nat) (first : Bool) :
+    HT cfg env (fun R => Based R mem) (runFn cfg kind run mem fuel first)
+      (fun r R => r.2.runId = mem.runId ∧ ∀ res, r.1 = .ok res → Gen.skipValues.contains res.next = true →
+        ∃ h, curR R mem.runId = some h ∧ ¬ Live h) := by
+  cases fuel with
+  | zero =>
+    unfold runFn
+    exact HT.pure (fun R _ => ⟨rfl, fun res h => by cases h⟩)
+  | succ n =>
+    unfold runFn
+    refine HT.bind (Q := fun out R => Based R mem ∧ (∀ x, out ≠ Outcome.nested x) ∧
+        (∀ next k, out = Outcome.ret next k → Gen.skipValues.contains next = false)) ?_ (fun out => ?_)
+    · intro st hi hz hp
+      obtain ⟨h1, h2, h3⟩ := HT.nextOutcome (cfg := cfg) (P := fun R => Based R mem) hn st hi hz hp
+      refine ⟨h1, h2, fun o ho => ⟨(h3 o ho).1, (h3 o ho).2, fun next k hk => ?_⟩⟩
+      simp only [Engine.nextOutcome, Except.ok.injEq] at ho
+      subst ho
+      cases hget : env.outcomes[st.outI]? with
+      | none => rw [hget] at hk; simp at hk
+      | some o' =>
+        rw [hget] at hk
+        simp only [Option.getD_some] at hk
+        exact hs o' (List.mem_of_getElem? hget) next k hk
+    · dsimp only
+      split
+      all_goals refine HT.bind (HT.emit _) (fun _ => ?_)
+      all_goals cases out <;> dsimp only
+      all_goals first
+        | exact HT.pure (fun R hp => ⟨rfl, fun res h hsk => by cases h; rw [hp.2.2 _ _ rfl] at hsk; cases hsk⟩)
+        | exact HT.pure (fun R hp => ⟨rfl, fun res h => by cases h⟩)
+        | exact HT.absurd (fun R hp => hp.2.1 _ rfl)
+        | (refine HT.bind (HT.pre (fun s _ hp _ => hp.1) (ctlUpdateMem_done mem _)) (fun r => ?_)
+           obtain ⟨mem', e⟩ := r
+           cases e with
+           | none =>
+             refine HT.pure (fun R hp => ⟨hp.1, fun res _ _ => ?_⟩)
+             obtain ⟨h, h1, h2⟩ := hp.2 rfl
+             exact ⟨h, h1, by unfold Live; rw [h2]; first | exact not_live_of_target_pause_cancel (Or.inl rfl) | exact not_live_of_target_pause_cancel (Or.inr rfl)⟩
+           | some a => exact HT.pure (fun R hp => ⟨hp.1, fun res h => by cases h⟩))
+
+/-- the auto-pause: when it reports that it paused, the run is persisted Paused -/
+theorem maybePause_done (n : Int) (p : Proc) (mem : Rec) (e : Abort) :
+    HT cfg env (fun R => allowed mem.runState 3 = true → Based R mem) (maybePause cfg n p mem e)
+      (fun b R => b = true → ∃ h, curR R mem.runId = some h ∧ ¬ Live h) := by
+  unfold maybePause maybePauseMem
+  split
+  · exact HT.bind (HT.pure (Q := fun r _ => r.1 = false) (fun _ _ => rfl)) (fun r => HT.pure (fun _ hp hb => by rw [hp] at hb; cases hb))
+  · dsimp only
+    refine HT.bind (Q := fun r R => r.1 = true → ∃ h, curR R mem.runId = some h ∧ ¬ Live h) ?_ (fun r => HT.pure (fun _ hp hb => hp hb))
+    refine HT.bind HT.getSys (fun s => ?_)
+    refine HT.bind (HT.modifySys (fun _ => rfl) (fun s h => (RelayInv.stable cfg).setCount s _ _ h)) (fun _ => ?_)
+    split
+    · exact HT.pure (fun _ _ h => by cases h)
+    · refine HT.bind (HT.pre (fun s _ hp => hp.1) (ctlUpdateMem_done mem .pause)) (fun r => ?_)
+      obtain ⟨mem', err⟩ := r
+      cases err with
+      | some a => exact HT.throwA _
+      | none =>
+        refine HT.bind (HT.modifySys (fun _ => rfl) (fun s h => (RelayInv.stable cfg).setCount s _ _ h)) (fun _ => ?_)
+        refine HT.pure (fun R hp _ => ?_)
+        obtain ⟨h, h1, h2⟩ := hp.2 rfl
+        exact ⟨h, h1, by unfold Live; rw [h2]; exact not_live_of_target_pause_cancel (Or.inl rfl)⟩
+
+end WorkflowModel.Engine
+
+namespace WorkflowModel.Engine
+open WorkflowModel RS
+variable {cfg : Cfg} {env : Env}
+
+theorem curR_of_isHead {R : List RunS} {h : Rec} (hh : IsHead R h) : curR R h.runId = some h := by
+  obtain ⟨x, t, hx, hl⟩ := hh
+  unfold curR
+  rw [hx]; simp [hl]
+
+/-- the updater, called while `rec0` (at the status the function ran on) is still the persisted record: a normal return means
+the write happened -/
+theorem updater_done (current next : Status) (run rec0 : Rec) (o : Obj) (R0 : List RunS) :
+    HT cfg env (fun R => R = R0 ∧ IsHead R0 rec0 ∧ rec0.runId = run.runId ∧ rec0.status = current ∧ UBased R0 run)
+      (updater cfg current next run o)
+      (fun _ R => ∃ h, curR R run.runId = some h ∧ h.version = run.version + 1) := by
+  unfold updater
+  refine HT.bind HT.getSys (fun s => ?_)
+  dsimp only
+  refine HT.bind (HT.lookup _) (fun v => ?_)
+  cases v with
+  | none => exact HT.throwA _
+  | some latest =>
+    dsimp only
+    split
+    · rename_i hst
+      refine HT.absurd (fun R hp => ?_)
+      obtain ⟨⟨⟨hR, hh0, hid0, hs0, _⟩, _, _⟩, hcur⟩ := hp
+      have : curR R run.runId = some rec0 := by rw [hR, ← hid0]; exact curR_of_isHead hh0
+      rw [this] at hcur
+      cases hcur
+      simp [Gen.G.updaterStatusChanged, hs0] at hst
+    · rename_i hst
+      split
+      · exact HT.throwA _
+      · rename_i hval
+        refine HT.post (HT.pre ?_ (HT.store_head _)) ?_
+        · intro s' hi ⟨⟨⟨hR, _, _, _, hub⟩, _, _⟩, hcur⟩
+          rw [← hR] at hub
+          obtain ⟨hl, hlid⟩ := isHead_of_curR hi.hist hcur.symm
+          obtain ⟨h, hh, hid, hv, hf, hc, hrs⟩ := hub
+          have heq : h = latest := isHead_unique hh hl (by rw [hid, hlid])
+          subst heq
+          have hstat : h.status = current := by simpa [Gen.G.updaterStatusChanged] using hst
+          have hedge : (h.status, next) ∈ cfg.edges := by
+            rw [hstat]; exact (C02.C02_validate_iff_declared cfg current next).mp (by simpa using hval)
+          have hne := not_completed_of_edge (hh.recOK hi.hist) hedge
+          have hrs' : h.runState = 1 ∨ h.runState = 2 := by
+            rcases hrs with a | a | a
+            · exact Or.inl a
+            · exact Or.inr a
+            · exact absurd a hne
+          refine ⟨legal_advance hi hh hid hv hf hc hrs' next o s.now hedge, ?_⟩
+          obtain ⟨x, t, hx, _⟩ := hh
+          exact legalNew_existing (x := x) (by rw [hid] at hx; exact hx)
+        · intro _ s' _ ⟨h, h1, h2, _⟩
+          exact ⟨h, h1, h2⟩
+
+/-- the step consumer after its guards, for a record whose version is the announced one -/
+theorem stepRun_done (hn : NoNested env) (hs : NoSkip env) (p : Proc) (pa : Int) (record : Rec) (fuel : Nat) :
+    HT cfg env (fun R => IsHead R record ∧ Gen.stopped record.runState = false)
+      (stepRun cfg p pa record (fun run => runFn cfg "step" run run fuel true))
+      (fun _ R => Done record.runId record.version R) := by
+  refine HT.fix (fun R0 hp0 => ?_)
+  unfold stepRun
+  dsimp only
+  -- the user function: both specifications at once
+  refine HT.bind (Q := fun r R => FnPost R0 r R ∧ r.2.runId = record.runId ∧ (∀ res, r.1 = .ok res → Gen.skipValues.contains res.next = true →
+      ∃ h, curR R record.runId = some h ∧ ¬ Live h)) ?_ (fun r => ?_)
+  · intro st hi hz hp
+    obtain ⟨a1, a2, a3⟩ := runFn_ht (cfg := cfg) hn "step" (viewRec record) (viewRec record) fuel true R0 st hi hz ⟨hp, based_view hp0.1⟩
+    obtain ⟨_, _, b3⟩ := runFn_done (cfg := cfg) hn hs "step" (viewRec record) (viewRec record) fuel true st hi hz (by rw [hp]; exact based_view hp0.1)
+    exact ⟨a1, a2, fun a ha => ⟨a3 a ha, b3 a ha⟩⟩
+  · obtain ⟨res, mem⟩ := r
+    cases res with
+    | error err =>
+      dsimp only
+      refine HT.assume (fun R hp => hp.2.1) (fun hid => ?_)
+      refine HT.bind (HT.pre (fun s _ hp => hp.1.2 err rfl) (maybePause_done pa p mem err)) (fun paused => ?_)
+      split
+      · rename_i hpz
+        refine HT.post (Q' := fun _ R => ∃ h, curR R record.runId = some h ∧ ¬ Live h) (HT.pure (fun R hp => by rw [← hid]; exact hp hpz)) ?_
+        intro _ s _ ⟨h, h1, h2⟩ w hw hl
+        rw [hw] at h1; cases h1
+        exact absurd hl h2
+      · exact HT.throwA _
+    | ok res =>
+      dsimp only
+      split
+      · rename_i hsk
+        refine HT.pure (fun R hp w hw hl => ?_)
+        obtain ⟨h, h1, h2⟩ := hp.2.2 res rfl hsk
+        rw [hw] at h1; cases h1
+        exact absurd hl h2
+      · rename_i hskip
+        refine HT.post (HT.pre ?_ (updater_done record.status res.next (viewRec record) record res.obj R0)) ?_
+        · intro s hi hp
+          rcases hp.1.1 res rfl with h | h
+          · exact absurd h hskip
+          · refine ⟨h, hp0.1, rfl, rfl, ?_⟩
+            have := ubased_view hi (record := record) (by rw [h]; exact hp0.1) hp0.2
+            rw [h] at this; exact this
+        · intro _ s _ ⟨h, h1, h2⟩ w hw _
+          have : curR s.runs record.runId = some h := h1
+          rw [hw] at this; cases this
+          intro hv
+          rw [hv] at h2
+          simp only [viewRec] at h2
+          womega
+
+end WorkflowModel.Engine
+
+namespace WorkflowModel.Engine
+open WorkflowModel RS
+variable {cfg : Cfg} {env : Env}
+
+theorem not_live_of_stopped {rs : Int} (h : Gen.stopped rs = true) : ¬ (rs = 1 ∨ rs = 2) := by
+  intro hl
+  rcases hl with rfl | rfl <;> simp [Gen.stopped, Gen.stoppedCases] at h
+
+theorem stepGate_done (hn : NoNested env) (hs : NoSkip env) (p : Proc) (pa : Int) (e : Event) (record : Rec) (fuel : Nat) :
+    HT cfg env (fun R => IsHead R record ∧ record.runId = e.runId)
+      (stepGate cfg p pa e record (fun run => runFn cfg "step" run run fuel true))
+      (fun _ R => Done e.runId e.version R) := by
+  unfold stepGate
+  split
+  · rename_i hold
+    refine HT.pure (fun R hp w hw _ => ?_)
+    rw [← hp.2, curR_of_isHead hp.1] at hw
+    cases hw
+    simp only [Gen.G.stepSkipOld, decide_eq_true_eq] at hold
+    womega
+  · rename_i hold
+    split
+    · exact HT.throwA _
+    · rename_i hstale
+      split
+      · rename_i hstop
+        refine HT.pure (fun R hp w hw hl => ?_)
+        rw [← hp.2, curR_of_isHead hp.1] at hw
+        cases hw
+        exact (not_live_of_stopped (by simpa [Gen.G.stepStopped] using hstop) hl).elim
+      · rename_i hstop
+        have hv : record.version = e.version := by
+          simp only [Gen.G.stepSkipOld, decide_eq_true_eq] at hold
+          simp only [Gen.G.stepStale, decide_eq_true_eq] at hstale
+          womega
+        refine HT.assume (fun R hp => hp.2) (fun hid => ?_)
+        refine HT.post (HT.pre (fun s _ hp => ⟨hp.1, by simpa [Gen.G.stepStopped] using hstop⟩) (stepRun_done hn hs p pa record fuel)) ?_
+        intro _ s _ hd
+        rw [← hid, ← hv]; exact hd
+
+theorem stepHandle_done (hn : NoNested env) (hs : NoSkip env) (p : Proc) (status : Status) (pa : Int) (e : Event) (fuel : Nat) :
+    HT cfg env (fun _ => True) (stepHandle cfg p status pa e (fun run => runFn cfg "step" run run fuel true))
+      (fun _ R => Done e.runId e.version R) := by
+  unfold stepHandle
+  refine HT.bind (HT.lookup _) (fun v => ?_)
+  cases v with
+  | none => exact HT.pure (fun R hp w hw _ => by rw [← hp.2] at hw; cases hw)
+  | some record =>
+    refine HT.pre (fun s hi hp => ?_) (stepGate_done hn hs p pa e record fuel)
+    have := isHead_of_curR hi.hist hp.2.symm
+    exact ⟨this.1, this.2⟩
+
+/-- **A delivery to a step consumer that ends with the acknowledgement** (a normal return of `deliver`): the event was for
+another shard, or the announced version needs no further handling. -/
+theorem deliver_step_done (hn : NoNested env) (hs : NoSkip env) (s : Status) (shard total : Int) (i : Nat) (e : Event) :
+    HT cfg env (fun _ => True) (deliver cfg (.step s shard total) i e)
+      (fun _ R => filteredOut (.step s shard total) i e = true ∨ Done e.runId e.version R) := by
+  unfold deliver
+  split
+  · rename_i hf
+    exact HT.post (HT.ack _ i) (fun _ _ _ _ => Or.inl hf)
+  · refine HT.bind (Q := fun _ R => Done e.runId e.version R) ?_ (fun _ => HT.post (HT.ack _ i) (fun _ _ _ h => Or.inr h))
+    unfold handle
+    exact stepHandle_done hn hs _ s _ e fuelDefault
+
+end WorkflowModel.Engine
+
+namespace WorkflowModel.Engine
+open WorkflowModel RS
+variable {cfg : Cfg} {env : Env}
+
+/-- the delete consumer's handler returns normally only after the run is persisted DataDeleted -/
+theorem deleteHandle_done (e : Event) :
+    HT cfg env (fun R => HasRDD R e.runId) (deleteHandle cfg e)
+      (fun _ R => ∃ h, curR R e.runId = some h ∧ h.runState = 6) := by
+  unfold deleteHandle
+  refine HT.bind (HT.lookup _) (fun v => ?_)
+  cases v with
+  | none => exact HT.throwA _
+  | some record =>
+    dsimp only
+    refine HT.bind (HT.of_frame (Fr.deleteObj record) (Pres.deleteObj record)) (fun newObj => ?_)
+    refine HT.assume (P := fun R => HasRDD R e.runId ∧ some record = curR R e.runId) (φ := True) (fun _ _ => trivial) (fun _ => ?_)
+    unfold updateRecord
+    intro st hi hz hp
+    obtain ⟨hh, hid⟩ := isHead_of_curR hi.hist hp.2.symm
+    have hrs : record.runState = 7 ∨ record.runState = 6 := by
+      obtain ⟨x, hx, w, hw, h7⟩ := hp.1
+      obtain ⟨x', t, hx', hl⟩ := hh
+      rw [hid, hx] at hx'
+      cases hx'
+      exact chain_head_after_rdd x.hist record t hl (hi.hist _ _ hx).chain ⟨w, hw, h7⟩
+    have hleg := legal_delete hi hh hrs newObj
+    obtain ⟨x', t, hx', _⟩ := hh
+    obtain ⟨b1, b2, b3⟩ := HT.store_head (cfg := cfg) (env := env) _ st hi hz ⟨hleg, legalNew_existing (x := x') hx'⟩
+    refine ⟨b1, b2, fun a ha => ?_⟩
+    obtain ⟨h, h1, _, h3, _⟩ := b3 a ha
+    exact ⟨h, by rw [← hid]; exact h1, h3⟩
+
+end WorkflowModel.Engine
